@@ -11,6 +11,7 @@ import (
 	"testing"
 	"time"
 
+	"github.com/quickfixgo/quickfix"
 	"github.com/quickfixgo/quickfix/config"
 	"pgregory.net/rapid"
 
@@ -21,7 +22,7 @@ import (
 	"verif/vk"
 )
 
-const c08Rule = "unconstrained rapid state machine, both roles: connects, every inbound type at any time (Logon at wrong times, application messages before logon, unparsable bytes), sends while disconnected / logging on / logged on / logging out, all four timer events, stop, disconnects, session-time checks with a virtual clock leaving and re-entering the schedule; non-trivial = history that reaches logged-on at least once and leaves it again; distinct = distinct history"
+const c08Rule = "unconstrained rapid state machine, both roles: connects, every inbound type at any time (Logon at wrong times, application messages before logon, unparsable bytes), sends while disconnected / logging on / logged on / logging out, all four timer events, stop, disconnects, session-time checks with a virtual clock leaving and re-entering the schedule, an application whose callbacks (generated mood) refuse the Logon, other administrative messages, application messages or sends; non-trivial = history that reaches logged-on at least once and leaves it again; distinct = distinct history"
 
 func c08() *stats.Collector {
 	c := stats.Get("C08")
@@ -154,8 +155,35 @@ func c08Property(t *rapid.T) {
 		s.observe(st, ctx)
 		s.flush()
 	}
+	// scripted application: what the callbacks answer is switched by a generated action
+	var refuseLogon, refuseAdmin, refuseApp, refuseSend bool
+	s.r.FromAdminErr = func(m *quickfix.Message) quickfix.MessageRejectError {
+		mt, _ := m.Header.GetString(35)
+		switch {
+		case mt == "A" && refuseLogon:
+			mon.feat["application-refused-logon"] = true
+			return quickfix.RejectLogon{Text: "not today"}
+		case mt != "A" && refuseAdmin:
+			return quickfix.ValueIsIncorrect(quickfix.Tag(35))
+		}
+		return nil
+	}
+	s.r.FromAppErr = func(m *quickfix.Message) quickfix.MessageRejectError {
+		if refuseApp {
+			return quickfix.ValueIsIncorrect(quickfix.Tag(55))
+		}
+		return nil
+	}
+	s.r.RefuseSend = func(string, *quickfix.Message) bool { return refuseSend }
 	t.Repeat(map[string]func(*rapid.T){
 		"idle": func(t *rapid.T) {},
+		"applicationMood": func(t *rapid.T) {
+			refuseLogon = rapid.IntRange(0, 2).Draw(t, "refuse-logon") == 0
+			refuseAdmin = rapid.IntRange(0, 3).Draw(t, "refuse-admin") == 0
+			refuseApp = rapid.IntRange(0, 3).Draw(t, "refuse-app") == 0
+			refuseSend = rapid.IntRange(0, 3).Draw(t, "refuse-send") == 0
+			s.logf("application: refuses logon %v, admin %v, app %v, sends %v", refuseLogon, refuseAdmin, refuseApp, refuseSend)
+		},
 		"connect": func(t *rapid.T) {
 			if stopped() {
 				return
